@@ -13,6 +13,8 @@ def build_everything():
                 continue
             seen.add(b)
             build.build_world('hist', b, cfg['groups'], thorough=False)
+    for b in ('rel-plain', 'dbg-asan'):
+        build.build_world('golden', b, ['core', 'io'], thorough=False)
     try:
         from . import iofault_check
         iofault_check.prebuild()
